@@ -103,12 +103,12 @@ class C11(Check):
         "reference or namespace. Distinct by digest."
     )
     assumptions = ["JSON true/false are not numbers: a boolean default never matches int/long/float/double"]
-    required_labels = ["valid", "valid:decimal-edge", "valid:s:ref", "valid:s:recursive", "valid:s:short-name-clash"] + ["mut:" + m for m in MUTATIONS]
+    required_labels = ["valid", "valid:aliases", "valid:logical", "valid:decimal-edge", "valid:s:ref", "valid:s:recursive", "valid:s:short-name-clash"] + ["mut:" + m for m in MUTATIONS]
     quick = (6000, 1)
     thorough = (15000, 16)
 
     def __init__(self):
-        self.feat = gen.Features(attrs=True, big=False, dict_prims=0.15, dict_null=True, bytes_defaults=True)
+        self.feat = gen.Features(attrs=True, big=False, dict_prims=0.15, dict_null=True, bytes_defaults=True, int_float_defaults=True)
 
     def selftest(self):
         B.selftest()
@@ -123,6 +123,11 @@ class C11(Check):
             gen.check_truth(ir, table, js)
             if d.p(0.45):
                 if d.p(0.3):
+                    # aliases (dotted, short, other namespace), logical annotations, fewer defaults: still valid
+                    ir2, table2 = gen.cosmetic_variant(d, ir, table)
+                    js = gen.Renderer(d, feat, table2).render(ir2, "")
+                    gen.check_truth(ir2, table2, js)
+                if d.p(0.3):
                     js = self.with_valid_decimal(d, js)
                 return {"schema": js, "mutation": None}
             start = d.i(len(MUTATIONS))
@@ -134,6 +139,12 @@ class C11(Check):
             return {"schema": js, "mutation": None}
 
         return cases()
+
+    def nest(self, d, t):
+        """The offending type directly, or below array items / map values / a union branch (any depth up to 2)."""
+        for _ in range(d.choice([0, 1, 2, 0, 1])):
+            t = d.choice([{"type": "array", "items": t}, {"type": "map", "values": t}, ["null", t], [t, "string"]]) if not isinstance(t, list) else {"type": "array", "items": t}
+        return t
 
     def with_valid_decimal(self, d, js):
         """A valid decimal annotation at the edges of what the specification allows (scale == precision, scale 0 or
@@ -168,7 +179,17 @@ class C11(Check):
         pos = walk_json(js)
         if kind == "undefined-ref":
             path, sub, ns, k = d.choice(pos)
-            cand = d.choice(["Nope", "un.defined.Name", "ns.Missing", "int2", "Strin"])
+            cands = ["Nope", "un.defined.Name", "ns.Missing", "int2", "Strin"]
+            # names that exist, but not from here: the unqualified part of a type living in another namespace, and an
+            # existing unqualified name under a namespace that does not define it
+            for full_ in table:
+                tns_, short_ = M.split_full(full_)
+                if tns_ != ns:
+                    cands.append(short_)
+                cands.append("other.ns." + short_)
+                if tns_:
+                    cands.append(tns_ + "x." + short_)
+            cand = d.choice(cands[::-1][: 12] + cands[:5])
             full = cand if "." in cand else (ns + "." + cand if ns else cand)
             if full in table:
                 return None
@@ -195,7 +216,7 @@ class C11(Check):
             if not recs:
                 return [js, dup] if not isinstance(js, list) and (isinstance(js, str) or js.get("type") in ("array", "map")) is False and False else None
             path, rec = d.choice(recs)
-            rec["fields"].insert(d.i(len(rec["fields"]) + 1), {"name": "dupfield", "type": dup})
+            rec["fields"].insert(d.i(len(rec["fields"]) + 1), {"name": "dupfield", "type": self.nest(d, dup)})
             return js
         if kind == "missing-name":
             named = [(p, s) for p, s, ns, k in pos if k in ("record", "enum", "fixed") and isinstance(s, dict)]
@@ -273,9 +294,9 @@ class C11(Check):
             recs = [(p, s) for p, s, ns, k in pos if k == "record"]
             if recs and d.p(0.7):
                 path, rec = d.choice(recs)
-                rec["fields"].insert(d.i(len(rec["fields"]) + 1), {"name": "decfield", "type": dec})
+                rec["fields"].insert(d.i(len(rec["fields"]) + 1), {"name": "decfield", "type": self.nest(d, dec)})
                 return js
-            return dec
+            return self.nest(d, dec)
         raise AssertionError(kind)
 
     def _ir_at(self, node, table, path):
@@ -312,6 +333,10 @@ class C11(Check):
         mut = case.get("mutation")
         if mut is None:
             labels = {"valid"}
+            if '"aliases": ["' in json.dumps(js):
+                labels.add("valid:aliases")
+            if "logicalType" in json.dumps(js):
+                labels.add("valid:logical")
             if "validdecimal" in repr(js) or (isinstance(js, dict) and js.get("logicalType") == "decimal"):
                 labels.add("valid:decimal-edge")
             node, table = M.resolve(js)
@@ -322,6 +347,18 @@ class C11(Check):
             self._compare(parsed, node, table, js)
             if set(ns) != set(table):
                 raise Violation("named-schemas-keys", f"named_schemas keys {sorted(ns)} != full names {sorted(table)}; schema={js!r:.400}")
+            # each name denotes the definition that carries it
+            for full, truth in table.items():
+                got = ns[full]
+                gk = got.get("type") if isinstance(got, dict) else None
+                if not isinstance(got, dict) or got.get("name") != full or gk != truth["k"]:
+                    raise Violation("name-denotes-other-definition", f"named_schemas[{full!r}] is {got!r:.200}, the schema defines a {truth['k']} of that name; schema={js!r:.400}")
+                if truth["k"] == "fixed" and got.get("size") != truth["size"]:
+                    raise Violation("name-denotes-other-definition", f"named_schemas[{full!r}] has size {got.get('size')}, defined with {truth['size']}")
+                if truth["k"] == "enum" and list(got.get("symbols", [])) != list(truth["symbols"]):
+                    raise Violation("name-denotes-other-definition", f"named_schemas[{full!r}] has symbols {got.get('symbols')}, defined with {truth['symbols']}")
+                if truth["k"] == "record" and [f["name"] for f in got.get("fields", [])] != [f["name"] for f in truth["fields"]]:
+                    raise Violation("name-denotes-other-definition", f"named_schemas[{full!r}] has fields {[f['name'] for f in got.get('fields', [])]}, defined with {[f['name'] for f in truth['fields']]}")
             return labels
         labels = {"mut:" + mut}
         # the mutated schema must be ill-formed for the reference resolver too when the kind is about names
